@@ -137,3 +137,12 @@ package req
 //@
 //@ func (*context).RecvMsg
 //@   before call:Wait#1 assert c.reqID == id && id != 0 && c.repMsg == nil && held(s.Mutex)
+//@
+//@ func (*context).RecvMsg
+//@   ensures isnil(result1) ==> result0 != nil && c.reqID == 0 && c.repMsg == nil && !c.receiveWait
+//@
+//@ func (*context).SendMsg$1
+//@   before call:cancel#1 assert c.sendMsg == m && held(s.Mutex)
+//@
+//@ func (*socket).RemovePipe
+//@   loop 2 ensures !(c.lastPipe == p && c.reqMsg != nil)
